@@ -79,10 +79,13 @@ def _worker(case):
         out["fast"] = canon(compile_alt_fast(ocf, conds))
         m = CRevisionModel(ocf, [])
         errs = 0
+        out["inc_mid"] = []
         for op in case["ops"]:
             try:
                 if op[0] == "A":
                     m.add_conditional(mk(op[1], op[2], op[3]))
+                elif op[0] == "C":
+                    out["inc_mid"].append((canon(m.to_compilation()), [int(k) for k in m.conds.keys()]))
                 else:
                     m.remove_conditional(op[1])
             except ValueError:
@@ -153,14 +156,23 @@ def run(tier, seed, broken_proof=False):
                 conds.append((k, gen_formula(rng, n, 1, 0.05), gen_formula(rng, n, 1, 0.05)))
         opsl = []
         live = []
-        for _ in range(rng.randrange(2, 7)):
+        for _ in range(rng.randrange(2, 8)):
+            if rng.random() < 0.25:
+                opsl.append(("C",))
+                continue
+            if live and rng.random() < 0.3:
+                # replace a registered conditional by a different one under the same index, compiling before and after
+                k = rng.choice(live)
+                f = (gen_lit(rng, n), gen_lit(rng, n)) if rng.random() < 0.6 else (gen_formula(rng, n, 1, 0.05), gen_formula(rng, n, 1, 0.05))
+                opsl += [("C",), ("R", k), ("A", k, f[0], f[1]), ("C",)]
+                continue
             if live and rng.random() < 0.35:
                 k = rng.choice(live + [99])
                 opsl.append(("R", k))
                 if k in live:
                     live.remove(k)
             else:
-                k = rng.choice([x for x in range(1, 15)])
+                k = rng.choice([x for x in range(1, 7)])       # few indices: removed indices are re-used by different conditionals
                 f = (gen_lit(rng, n), gen_lit(rng, n)) if rng.random() < 0.6 else (gen_formula(rng, n, 1, 0.05), gen_formula(rng, n, 1, 0.05))
                 opsl.append(("A", k, f[0], f[1]))
                 if k not in live:
@@ -185,7 +197,7 @@ def run(tier, seed, broken_proof=False):
         for op in c["ops"]:
             if op[0] == "A":
                 lines.append("NA %d %s ; %s" % (op[1], to_prefix(op[2]), to_prefix(op[3])))
-            else:
+            elif op[0] == "R":
                 lines.append("NR %d" % op[1])
         im = ires[c["id"]]
         c["checks"] = []
@@ -213,6 +225,21 @@ def run(tier, seed, broken_proof=False):
                                 lines.append("GA p " + " ".join("%d 0" % k for k in keys) + " m " + " ".join("%d %d" % kv for kv in g2.items()))
                                 c["checks"].append(("below", ri))
         lines.append("E")
+        # one extra model case per intermediate compilation: the operations up to that point
+        ci = 0
+        for pos, op in enumerate(c["ops"]):
+            if op[0] == "C":
+                lines.append("V %s~c%d %d" % (c["id"], ci, c["n"]))
+                for w, r in c["prior"]:
+                    lines.append("W %s %d" % (w, r))
+                for op2 in c["ops"][:pos]:
+                    if op2[0] == "A":
+                        lines.append("NA %d %s ; %s" % (op2[1], to_prefix(op2[2]), to_prefix(op2[3])))
+                    elif op2[0] == "R":
+                        lines.append("NR %d" % op2[1])
+                lines.append("E")
+                ci += 1
+        c["ncompiles"] = ci
     mres = {}
     for line in common._run_bin("\n".join(lines) + "\n"):
         parts = line.split("\t")
@@ -242,9 +269,20 @@ def run(tier, seed, broken_proof=False):
         if parse_comp(m["inc"][2]) != inc_exp:
             violations.append({"kind": "model-incremental-vs-fresh", "case": desc, "ops": str(c["ops"]), "found_by": "none", "theorem_or_observable": "incremental model vs fresh compilation (model)"})
         if im["inc"] != inc_exp or im["inc_keys"] != inc_keys:
-            violations.append({"kind": "incremental", "case": desc, "ops": [(o[0], o[1]) + ((cond_text((o[1], o[2], o[3]), c["sig"]),) if o[0] == "A" else ()) for o in c["ops"]],
+            violations.append({"kind": "incremental", "case": desc, "ops": [(o[0],) + ((o[1],) if len(o) > 1 else ()) + ((cond_text((o[1], o[2], o[3]), c["sig"]),) if o[0] == "A" else ()) for o in c["ops"]],
                                "expected": {"keys": inc_keys, "compilation": inc_exp}, "actual": {"keys": im["inc_keys"], "compilation": im["inc"]}, "found_by": "generated",
                                "theorem_or_observable": "incremental model after add/remove sequence vs fresh compilation of its conditionals"})
+        for ci in range(c.get("ncompiles", 0)):
+            mm = mres["%s~c%d" % (c["id"], ci)]
+            exp_keys = [int(x) for x in mm["inc"][0].split(",") if x]
+            exp_comp = parse_comp(mm["inc"][1])
+            evals += 1
+            strata["intermediate-compilations"] += 1
+            if ci < len(im["inc_mid"]) and (im["inc_mid"][ci][0] != exp_comp or im["inc_mid"][ci][1] != exp_keys):
+                violations.append({"kind": "incremental", "case": desc, "ops": [(o[0],) + ((o[1],) if len(o) > 1 else ()) + ((cond_text((o[1], o[2], o[3]), c["sig"]),) if o[0] == "A" else ()) for o in c["ops"]],
+                                   "compile_point": ci, "expected": {"keys": exp_keys, "compilation": exp_comp}, "actual": {"keys": im["inc_mid"][ci][1], "compilation": im["inc_mid"][ci][0]},
+                                   "found_by": "generated", "theorem_or_observable": "incremental model at an intermediate compilation vs fresh compilation of its current conditionals"})
+                break
         strata["literal-only" if all(b[0] in "v!" and a[0] in "v!" for (_, b, a) in c["conds"]) else "compound"] += 1
         ci = 0
         below_fail = {}
